@@ -14,6 +14,8 @@ pub struct Keys {
     pub strict: bool,
     /// ignore fallback levels (C09 `||` -> `|` comparisons)
     pub erase_levels: bool,
+    /// treat every state as accepting (C04: scripts carry no accepting states)
+    pub all_accepting: bool,
     pub names: Interner,
 }
 
@@ -26,7 +28,7 @@ fn opt(d: &Option<String>) -> String {
 
 impl Keys {
     pub fn new(strict: bool) -> Self {
-        Keys { strict, erase_levels: false, names: Interner::default() }
+        Keys { strict, erase_levels: false, all_accepting: false, names: Interner::default() }
     }
 
     fn lvl(&self, l: usize) -> usize {
@@ -189,7 +191,7 @@ impl Keys {
         }
         let core = |s: usize| !a.edges[s].is_empty() || s == a.accept;
         let starts: BTreeSet<usize> = a.start_set().into_iter().filter(|s| core(*s)).collect();
-        let mut n = LNfa { starts, accept: vec![false; a.n], trans: vec![vec![]; a.n] };
+        let mut n = LNfa { starts, accept: vec![self.all_accepting; a.n], trans: vec![vec![]; a.n] };
         n.accept[a.accept] = true;
         let mut cl: HashMap<usize, Vec<usize>> = HashMap::new();
         for s in 0..a.n {
@@ -208,7 +210,8 @@ impl Keys {
     pub fn impl_lnfa(&mut self, dfa: &DFA, owner: &DFA) -> LNfa {
         let (plain, ids) = self.impl_nfa_with_ids(dfa, owner);
         let index: HashMap<u32, usize> = ids.iter().enumerate().map(|(i, s)| (*s, i)).collect();
-        let mut n = LNfa { starts: plain.starts.clone(), accept: plain.accept.clone(), trans: vec![vec![]; ids.len()] };
+        let accept = if self.all_accepting { vec![true; ids.len()] } else { plain.accept.clone() };
+        let mut n = LNfa { starts: plain.starts.clone(), accept, trans: vec![vec![]; ids.len()] };
         for (from, tos) in &dfa.transitions {
             for (inp_id, to) in tos {
                 let inp = dfa.verif_input(*inp_id);
